@@ -27,6 +27,63 @@ def corrupt_selftest(d):
         raise ToolError(f"C17 selftest: expected 3 rejections of the corrupted trace, got {nrej}")
     return {"corrupted_events": 3, "rejected": 3}
 
+def lexgen_phase(rep, d, tier, files, maxlen):
+    cfg = os.path.join(SPEC, f"LexGenMC_{tier}.cfg")
+    base = open(os.path.join(SPEC, "LexGenMC.cfg")).read().replace("MaxLen = 4", f"MaxLen = {maxlen}")
+    open(cfg, "w").write(base)
+    try:
+        out, info = tlc("LexGenMC", os.path.basename(cfg), workers=8 if tier == "quick" else 14, xmx="12g", timeout=2 * 3600)
+    finally:
+        os.remove(cfg)
+    if not info["no_error"]:
+        rep.violation({"property": "C17", "kind": "lexgen-design", "tlc": info.get("error_text", "")[:4000],
+                       "explanation": "LexGenMC: on the generative lexer specification the tokens of some string do not tile it / do not re-lex to themselves"},
+                      {"what": "lexgen-design", "tlc": info.get("error_text", "")})
+    out2, info2 = tlc("LexGenMC", "LexGenMC_keyword.cfg", workers=2)
+    if info2["no_error"] or "ModelRelex is violated" not in out2:
+        raise ToolError("LexGenMC over the keyword alphabet no longer finds `let(` (finding F43, transcribed by the specification): the model has gone vacuous")
+    def validate(path):
+        o, i_ = tlc("LexGenTrace", "LexGenTrace.cfg", env={"TRACE": path}, workers=1, deque=True, xmx="8g")
+        return path, o, i_
+    with ThreadPoolExecutor(max_workers=6) as ex:
+        results = list(ex.map(validate, files))
+    judged = skipped = tstates = nrej = 0
+    for path, o, i_ in results:
+        tr = tuples(o, "TRACE")
+        if not i_["no_error"] or not tr or tr[0][1] != tr[0][2]:
+            open(path + ".lexgen.tlc.out", "w").write(o)
+            raise ToolError(f"LexGenTrace did not consume {path}: " + i_.get("error_text", o[-800:])[:1200])
+        c = tuples(o, "COUNTS")[-1]
+        judged += c[1]; skipped += c[3]; tstates += i_.get("distinct", 0)
+        for r in tuples(o, "REJECT"):
+            nrej += 1
+            src = json.loads(r[1]) if r[1].startswith('"') else r[1]
+            exp = json.loads(r[4]) if len(r) > 4 and r[4] else None
+            rep.violation({"property": "C17", "kind": "lexgen-" + r[2], "source": src, "specified_tokens": exp, "trace_file": os.path.relpath(path, ROOT), "line": r[3],
+                           "explanation": "the token stream the lexer returned is not the one spec/LexGen.tla specifies for this source (kind class, character span)"},
+                          {"what": "lexgen-" + r[2], "src": src})
+    # binding demonstration: a wrong kind, a wrong span, a valid source reported as rejected
+    ev = read_ndjson(files[0]); k = 0
+    for e in ev:
+        if e["event"] == "Lex" and len(e["toks"]) >= 3:
+            k += 1
+            if k == 2: e["toks"][1]["c"] = "Keyword"
+            elif k == 4: e["toks"][2]["e"] += 1
+            elif k == 6: e["event"] = "LexReject"; e["nerr"] = 1
+            elif k == 7: break
+    bp = os.path.join(d, "lexgen-bad.ndjson"); write_ndjson(bp, ev)
+    ob, _ = tlc("LexGenTrace", "LexGenTrace.cfg", env={"TRACE": bp}, workers=1, deque=True, xmx="8g")
+    got = sorted(r[2] for r in tuples(ob, "REJECT"))
+    base_rej = sorted(r[2] for r in tuples(results[0][1], "REJECT"))
+    for x in base_rej:
+        if x in got: got.remove(x)
+    if got != ["rejected-a-valid-source", "token-kind", "token-span"]:
+        raise ToolError(f"C17 generative selftest: planted differences not recognised: {got}")
+    return {"model_states": info.get("distinct", 0), "model_bound": f"every string of length <= {maxlen} over the lexical alphabet", "model_invariants": ["ModelTiles", "ModelRelex"],
+            "model_holds": info["no_error"], "keyword_alphabet_violates": "ModelRelex (let( : F43)", "streams_compared": judged, "not_compared_symbols_outside_the_specified_alphabet": skipped,
+            "differences": nrej, "trace_states": tstates, "selftest": {"planted": 3, "recognised": 3},
+            "explanation": "spec/LexGen.tla transcribes prqlc-parser's lexer rule by rule (ordered choice, greedy repetition, end-of-expression look-ahead, multi-quote strings and escapes, numbers, dates, line wraps) for the 46 symbols of the C17 alphabets; TLC checks the tiling and re-lex property on the model for every string of the space, and LexGenTrace requires the real lexer's token stream (kind classes, byte spans, accept / reject) to be Lex(source) for every string compiled"}
+
 def check(tier):
     rep = Report("C17", tier)
     d = workdir("C17")
@@ -97,11 +154,14 @@ def check(tier):
                 sig.update(det)
             rep.violation({"property": "C17", "kind": r[2], "detail": det, "source": src, "trace_file": os.path.relpath(path, ROOT), "line": r[3],
                            "how_to_replay": "bin/check C17 --replay <this file>"}, sig)
+    # generative oracle (spec/LexGen.tla): the lexer transcribed as a function; (a) the property on the model itself for
+    # every string of the space, (b) the real token stream of every string must be Lex(string)
+    gen_cov = lexgen_phase(rep, d, tier, shards + lists, maxlen)
     st = corrupt_selftest(d)
     ev0 = read_ndjson(shards[0])
     for e in [ev0[5], ev0[len(ev0) // 2], ev0[-2]]:
         samples.append({"src": e.get("src"), "tokens": [[t["k"], t["s"], t["e"]] for t in e.get("toks", [])], "event": e["event"]})
-    cov = {"states": states, "transitions": states, "traces_validated_against_impl": total, "samples": samples, "exhaustive": True,
+    cov = {"generative_lexer": gen_cov, "states": states + gen_cov["model_states"] + gen_cov["trace_states"], "transitions": states, "traces_validated_against_impl": total + gen_cov["streams_compared"], "samples": samples, "exhaustive": True,
            "explanation": f"every string of length <= {maxlen} over the {n}-symbol lexical alphabet {ALPHABET!r} ({sum(n**i for i in range(maxlen+1))} strings; TLC checks membership, strict enumeration order and the size of the space) plus {len(strs)} seeded longer strings / keyword mixes / repository queries; each token stream validated by the tiling monitor of Lexer.tla",
            "strings_total": total, "trace_events": events, "selftest": st}
     return rep.finish("model_checking", cov,
